@@ -510,6 +510,16 @@ class Gen:
 
         def new_file():
             self.nfile += 1
+            if layout == "equal-rel" and len(proj.sources) >= 2 and proj.files and \
+                    (len(proj.files) == 1 or r.chance(1, 3)):
+                # the same relative path below another sources dir (the second file always does this, so an
+                # "equal-rel" project is guaranteed to contain at least one such pair)
+                other = r.pick(proj.files)
+                for srcdir in proj.sources:
+                    key = os.path.normpath(os.path.join(srcdir, other.rel))
+                    if key not in used_paths:
+                        used_paths.add(key)
+                        return SrcFile(f"F{self.nfile}", proj, srcdir, other.rel)
             for _try in range(50):
                 srcdir = r.pick(proj.sources)
                 sub = r.pick(SUBDIRS) if layout != "flat" else ""
